@@ -402,6 +402,9 @@ func runC08Case(r *ev.Run, c c08Case) {
 				for _, p := range probs[render] {
 					switch probCode(p) {
 					case "attrs-not-der-sorted", "certificates", "protocol", "micalg", "trailing-data":
+					case "digest-alg-unsupported":
+						// a digest other than SHA-256 (the one the property names and micalg announces) is a finding about
+						// the message, not a disagreement between the verifiers: OpenSSL accepts any digest it knows
 					default:
 						onlySoft = false
 					}
@@ -444,7 +447,7 @@ func genC08(rng *mrand.Rand, id string, p, e, a int, enc string) c08Case {
 	}
 	fix(s.Embeds)
 	fix(s.Attach)
-	s.SMIME = gen.Pick(rng, []string{"rsa", "ecdsa", "rsa", "ecdsa", "rsa-ca384", "ecdsa-ca384", "rsa-sameserial", "rsa-utf8issuer", "ecdsa-rootgiven"})
+	s.SMIME = gen.Pick(rng, []string{"rsa", "ecdsa", "rsa", "ecdsa", "rsa-ca384", "ecdsa-ca384", "rsa-sameserial", "rsa-utf8issuer", "ecdsa-rootgiven", "ecdsa-p384", "ecdsa-p521"})
 	s.WithInt = rng.Intn(2) == 0
 	if s.SMIME == "rsa-sameserial" || s.SMIME == "rsa-utf8issuer" || s.SMIME == "ecdsa-rootgiven" {
 		s.WithInt = true
@@ -520,7 +523,7 @@ func runC08Concurrent(r *ev.Run, round int) {
 
 func runC08(r *ev.Run, rep *ev.ReplayDoc) ev.Summary {
 	sum := ev.Summary{
-		Rule: "S/MIME-signed messages over enumerated shapes (parts 0-3 x embeds 0-2 x attachments 0-2) and random specs with canonical-CRLF content, every transfer encoding per part and file, part and file descriptions that need encoded-words under every message encoding and charset, empty generic headers, address lists emptied by the IgnoreInvalid setters, (multi-line) preformatted headers, long folded headers, signing configured through SignWithTLSCertificate, signing configured after the message has been rendered unsigned, message middlewares that change the body / a header / the part encoding / add an attachment, RSA-2048 and ECDSA-P256 signer certificates with and without the intermediate, also leaves whose own certificate is signed ecdsa-with-SHA384 by a P-384 CA, a leaf that has the same serial number as its issuing intermediate, a leaf whose issuer field spells the intermediate's name in another string encoding, and the chain's root handed over in place of the direct issuer; each message rendered twice, and a third time after further builder calls (add an alternative / attachment / embed, change subject or header, replace the body, add a recipient). Also eight goroutines that sign and render large messages of their own at the same time. The harness splits multipart/signed with its own MIME reader and verifies the detached CMS SignedData with its own verifier; openssl smime -verify cross-checks (all cases in quick, a sample in thorough). distinct by (shape, features)",
+		Rule: "S/MIME-signed messages over enumerated shapes (parts 0-3 x embeds 0-2 x attachments 0-2) and random specs with canonical-CRLF content, every transfer encoding per part and file, part and file descriptions that need encoded-words under every message encoding and charset, empty generic headers, address lists emptied by the IgnoreInvalid setters, (multi-line) preformatted headers, long folded headers, signing configured through SignWithTLSCertificate, signing configured after the message has been rendered unsigned, message middlewares that change the body / a header / the part encoding / add an attachment, RSA-2048 and ECDSA (P-256, P-384, P-521) signer certificates with and without the intermediate, also leaves whose own certificate is signed ecdsa-with-SHA384 by a P-384 CA, a leaf that has the same serial number as its issuing intermediate, a leaf whose issuer field spells the intermediate's name in another string encoding, and the chain's root handed over in place of the direct issuer; each message rendered twice, and a third time after further builder calls (add an alternative / attachment / embed, change subject or header, replace the body, add a recipient). Also eight goroutines that sign and render large messages of their own at the same time. The harness splits multipart/signed with its own MIME reader and verifies the detached CMS SignedData with its own verifier; openssl smime -verify cross-checks (all cases in quick, a sample in thorough). distinct by (shape, features)",
 		Assumptions: []string{
 			"the signed entity is the first body part exactly as emitted, without the CRLF that belongs to the following delimiter (RFC 1847)",
 			"trust in the harness CMS verifier is established per run against OpenSSL 3 on every cross-checked message (a disagreement in the accepting direction is a harness error)",
